@@ -250,7 +250,7 @@ func (r *nsRunner) listing(c *Client, cmd string) (out string, status string) {
 	}
 	var items []string
 	for _, u := range rep.Untagged {
-		atts, name, ok := parseListLine(u)
+		atts, name, ok := awParseListLine(u)
 		if !ok {
 			continue
 		}
@@ -268,8 +268,8 @@ func (r *nsRunner) listing(c *Client, cmd string) (out string, status string) {
 	return strings.Join(items, ";"), "ok"
 }
 
-// realNoselect maps the attribute rendering to the model's two classes.
-func realNoselect(out string) string {
+// awRealNoselect maps the attribute rendering to the model's two classes.
+func awRealNoselect(out string) string {
 	if out == "-" || out == "panic" {
 		return out
 	}
@@ -305,7 +305,7 @@ func (r *nsRunner) exec(step string) error {
 		rep := sess().Cmd(line)
 		q.ops = append(q.ops, op)
 		q.results = append(q.results, nsClassify(rep))
-		q.replies = append(q.replies, canonTagged(rep))
+		q.replies = append(q.replies, awCanonTagged(rep))
 		if rep.Err != nil {
 			return fmt.Errorf("%s: %v", line, rep.Err)
 		}
@@ -384,9 +384,9 @@ func (r *nsRunner) exec(step string) error {
 	}
 	if refused && q.echoAt < 0 {
 		after, _ := r.rows()
-		if fmt.Sprint(sortedNames(before)) != fmt.Sprint(sortedNames(after)) {
+		if fmt.Sprint(awSortedNames(before)) != fmt.Sprint(awSortedNames(after)) {
 			q.echoAt = len(q.results) - 1
-			q.echoDesc = fmt.Sprintf("%s was answered %q, yet applying the connector's queued updates afterwards changed the mailbox names from %q to %q", nsClear(f), q.replies[len(q.replies)-1], sortedNames(before), sortedNames(after))
+			q.echoDesc = fmt.Sprintf("%s was answered %q, yet applying the connector's queued updates afterwards changed the mailbox names from %q to %q", nsClear(f), q.replies[len(q.replies)-1], awSortedNames(before), awSortedNames(after))
 		}
 	}
 	for _, p := range r.sys.Panics.Take() {
@@ -409,7 +409,7 @@ func (r *nsRunner) finishSeq() {
 	}
 }
 
-func sortedNames(m map[string]string) []string {
+func awSortedNames(m map[string]string) []string {
 	var out []string
 	for n := range m {
 		out = append(out, n)
@@ -757,12 +757,12 @@ func nsEvaluate(seqs []*nsSeq, stats map[string]int) ([][]nsFinding, error) {
 		}
 		if same {
 			stats["tie.results-agree"]++
-			if w := realNoselect(q.list); w != nsField(ans[i], "list") {
+			if w := awRealNoselect(q.list); w != nsField(ans[i], "list") {
 				add("model-mismatch-list", fmt.Sprintf("tie: final LIST \"\" \"*\" = %s, the Lean model of the code predicts %s cause=model-mismatch-list", w, nsField(ans[i], "list")), -1)
 			} else {
 				stats["tie.list-agrees"]++
 			}
-			if w := realNoselect(q.lsub); w != nsField(ans[i], "lsub") {
+			if w := awRealNoselect(q.lsub); w != nsField(ans[i], "lsub") {
 				add("model-mismatch-lsub", fmt.Sprintf("tie: final LSUB \"\" \"*\" = %s, the Lean model of the code predicts %s cause=model-mismatch-lsub", w, nsField(ans[i], "lsub")), -1)
 			} else {
 				stats["tie.lsub-agrees"]++
@@ -825,7 +825,7 @@ func nsEvaluate(seqs []*nsSeq, stats map[string]int) ([][]nsFinding, error) {
 			continue
 		}
 		cause := "unknown"
-		if m := reCause.FindStringSubmatch(a); m != nil {
+		if m := awReCause.FindStringSubmatch(a); m != nil {
 			cause = m[1]
 		}
 		q := seqs[refs[k].seq]
